@@ -108,6 +108,15 @@ def hex_gates(P, f, int_call):
     return out
 
 
+def read_calls_of(fn):
+    params = set(fn.params)
+    return [c for c in walk_shallow(fn.node) if isinstance(c, ast.Call) and isinstance(c.func, ast.Name) and c.func.id in params]
+
+
+def _inside_call_to_helper(P, f, c):
+    return False
+
+
 def check(P, R):
     R.rule('C05.a', 'payload loop: bounded request, received-length accounting', floor=2)
     R.rule('C05.b', 'every stream read is checked; failure leads only to the parsing error', floor=4)
@@ -119,7 +128,13 @@ def check(P, R):
     f = P.func(f'{BM}:_iter_chunked')
     g, rd = f.cfg, f.rd
     reads = c04.read_param_calls(f)
-    R.require(len(reads) >= 3, f'{f.fq}: {len(reads)} stream reads found, at least 3 expected (size line, payload, terminator)')
+    helper_reads = 0
+    for hc in [x for x in walk_shallow(f.node) if isinstance(x, ast.Call) and isinstance(x.func, ast.Name) and x.args
+               and any(isinstance(a, ast.Name) and a.id == f.params[0] for a in x.args)]:
+        r_ = P.resolve_name(f.module, hc.func.id)
+        if r_ and r_[0] == 'func':
+            helper_reads += len(read_calls_of(r_[1]))
+    R.require(len(reads) + helper_reads >= 3, f'{f.fq}: {len(reads)} stream reads found, at least 3 expected (size line, payload, terminator)')
 
     # ---- a: payload loop
     loops = [n for n in walk_shallow(f.node) if isinstance(n, ast.While) and T.counter_of_while(n)]
@@ -160,6 +175,8 @@ def check(P, R):
                      why='an encoding cut short inside a size line must be rejected, not taken for the last chunk')
         else:
             # read used inside an expression: must be (part of) a comparison with a constant whose mismatch edge raises
+            if _inside_call_to_helper(P, f, c):
+                continue
             st = stmt_of(c)
             tn = [n for n in g.node_of_stmt(c) if n.kind == 'test']
             if not tn:
@@ -199,6 +216,43 @@ def check(P, R):
                  why='property quantifies over read fragmentation', key_extra=f'read#{ri}')
         else:
             R.ob('C05.f', f, c, True, nontrivial=False, key_extra=f'read#{ri}')
+
+    # the chunk terminator may be verified by a package helper that is given the stream
+    for hc in [x for x in walk_shallow(f.node) if isinstance(x, ast.Call) and isinstance(x.func, ast.Name) and x.args
+               and any(isinstance(a, ast.Name) and a.id == f.params[0] for a in x.args)]:
+        r_ = P.resolve_name(f.module, hc.func.id)
+        if not (r_ and r_[0] == 'func'):
+            continue
+        hf = r_[1]
+        hg = hf.cfg
+        hreads = read_calls_of(hf)
+        # in the caller the helper's falsy result must lead only to the parsing error
+        tn = [n for n in g.node_of_stmt(hc) if n.kind == 'test']
+        okc = False
+        if tn:
+            t_, neg_ = strip_not(tn[0].ast)
+            lab_ = 'true' if neg_ else 'false'
+            reach = g.reachable_from(T.succ_by_label(tn[0], lab_))
+            okc = g.exit not in reach and not any(y in reach for y in ys)
+        R.ob('C05.b', f, hc, okc, text=f'{short(hc)}: a failed terminator check leads only to the parsing error', detail='' if okc else
+             'the result of the terminator helper is not checked', key_extra='helper-result')
+        # inside the helper every comparison of a byte read with its expected constant must reject on mismatch
+        for n in hg.nodes:
+            if n.kind != 'test':
+                continue
+            cp = compare_parts(strip_not(n.ast)[0])
+            if not (cp and cp[1] in (ast.Eq, ast.NotEq) and isinstance(cp[0], ast.Name)):
+                continue
+            if not any(dd.value in hreads for dd in hf.rd.at(n, cp[0].id)):
+                continue
+            mism = 'false' if (cp[1] is ast.Eq) != strip_not(n.ast)[1] else 'true'
+            reach = hg.reachable_from(T.succ_by_label(n, mism))
+            rets_ = [m for m in reach if m.kind == 'stmt' and isinstance(m.ast, ast.Return)]
+            okh = bool(rets_) and all(is_const(m.ast.value, False) for m in rets_) or (not rets_ and hg.exit not in reach)
+            R.ob('C05.b', hf, n.ast, okh, text=f'{hf.name}: `{short(n.ast)}` - a wrong byte is rejected', detail='' if okh else
+                 f'when the byte read is not the expected one the helper can still report success (it goes on to `{short(rets_[0].ast) if rets_ else "?"}`): '
+                 f'the CR of the chunk terminator becomes optional, so data followed by a bare LF is accepted',
+                 why='a chunk whose data is not followed by CRLF is rejected', key_extra='helper-byte')
 
     # ---- c: single normal exit
     ztests = []
@@ -264,6 +318,24 @@ def check(P, R):
                     cap_node = n
     R.ob('C05.d', f, cap_node.ast if cap_node else f.node, capped, text='size-line scan capped by buff_size',
          detail='' if capped else 'no bound on the number of bytes scanned for a size line')
+
+    # only the parsing error escapes the decoder (escape analysis)
+    from ..escape import Escapes
+    E = Escapes(P)
+    req_err_ = P.cls('ombott.request_pkg.errors:RequestError')
+    for (cname, origin) in sorted(E.escapes(f)):
+        pc = [c for c in P.classes.values() if c.name == cname]
+        ok = bool(pc) and P.is_subclass(pc[0], req_err_)
+        where = origin.rpartition(' @')[0].split(' ', 1)[-1]
+        R.ob('C05.d', f, None, ok, text=f'_iter_chunked may raise {cname} ({where})', detail='' if ok else
+             f'{cname} from `{where}` can leave the decoder: it is not a request error, so framing garbage is answered with a 500 instead of a client error',
+             why='no framing garbage causes anything but acceptance or a client error', key_extra=f'{cname}:{where}')
+    # decoder state is local to the call (size-line buffer, flags): no module-level scratch objects
+    from .. import effects as EF
+    for w in EF.shared_writes(P, [f]):
+        R.ob('C05.d', f, w['node'], False, detail=
+             f'the decoder keeps scanning state in the shared location {w["target"]}: two bodies decoded at the same time overwrite each other\'s size digits '
+             f'(a truncated body can be accepted as complete)', key_extra='shared:' + w['target'] + w['kind'])
 
     # ---- e: mapping of request errors
     table = errors_map_table(P)
